@@ -151,8 +151,8 @@ def ForAll(vars_, body, patterns=None):
     """vars_: z3 consts (symbolic mode only)."""
     vs = vars_ if isinstance(vars_, (list, tuple)) else [vars_]
     if patterns:
-        return z3.ForAll(vs, body, patterns=patterns)
-    return z3.ForAll(vs, body)
+        return ty.FA(vs, body, patterns=patterns)
+    return ty.FA(vs, body)
 
 
 def Exists(vars_, body):
@@ -193,7 +193,7 @@ def AllIdx(lo, hi, f, name="i"):
         return z3.And(*[_b(f(z3.IntVal(i))) for i in c]) if c else z3.BoolVal(True)
     if _sym(lo, hi):
         i = z3.Int(ty.fresh_name(name))
-        return z3.ForAll([i], z3.Implies(z3.And(_n(lo) <= i, i < _n(hi)), _b(f(i))))
+        return ty.FA([i], z3.Implies(z3.And(_n(lo) <= i, i < _n(hi)), _b(f(i))))
     return all(f(i) for i in range(int(lo), int(hi)))
 
 
